@@ -54,17 +54,26 @@ def ref_eval(form, env):
     raise OutOfSpace("unquoted form is not a bound variable: %r" % (form,))
 
 
+OPS = ("unquote", "unquote-splice", "quasiquote")
+
+
+def canon_op(name):
+    """`unquote_splice` and `unquote-splice` are the same symbol (syntax.rst,
+    "mangling": hyphens and underscores are interchangeable in symbols)."""
+    return name.replace("_", "-")
+
+
 def qq(form, env, level=0):
     """-> ("one", value) or ("splice", [values]).  Holes are evaluated left to
     right.  Exceptions raised by `list(value or [])` propagate (the expected
     outcome is then that exception's class)."""
     M = _M()
     if isinstance(form, M.Expression) and len(form) and isinstance(form[0], M.Symbol):
-        op = str(form[0])
+        op = canon_op(str(form[0]))
+        if op in OPS and len(form) != 2:
+            raise OutOfSpace("%s with %d arguments" % (op, len(form) - 1))
         if op in ("unquote", "unquote-splice"):
             if level == 0:
-                if len(form) != 2:
-                    raise OutOfSpace("unquote with %d arguments" % (len(form) - 1))
                 v = ref_eval(form[1], env)
                 if op == "unquote":
                     return "one", v
@@ -180,8 +189,19 @@ def _seq(kind, kids):
 
 def _is_holeish(t):
     """hole or unquote/quasiquote wrapper expression"""
-    return t[0] == "HOLE" or (t[0] == "Expression" and t[1] and t[1][0][0] == "Symbol"
-                              and t[1][0][1] in ("unquote", "unquote-splice", "quasiquote"))
+    return t[0] == "HOLE" or (t[0] == "Expression" and len(t[1]) == 2 and t[1][0][0] == "Symbol"
+                              and canon_op(t[1][0][1]) in OPS)
+
+
+# the "operator names as data" family: the three operator symbols as plain
+# atoms (so they appear as the first element of List/Tuple/Set/Dict/... nodes
+# and at non-head positions, where they are ordinary symbols), and the
+# underscore spelling of the splice operator as a hole / wrapper head.
+OP_ATOMS = [P.Sym("unquote"), P.Sym("unquote-splice"), P.Sym("quasiquote")]
+FAMILIES = {
+    "base": dict(atoms=ATOMS, hole_ops=("unquote", "unquote-splice"), fstr=True),
+    "opnames": dict(atoms=[P.Sym("a")] + OP_ATOMS, hole_ops=("unquote", "unquote_splice"), fstr=False),
+}
 
 
 def _ok_child(kind, idx, t):
@@ -194,38 +214,41 @@ def _ok_child(kind, idx, t):
     return True
 
 
-def gen(level, n, max_level, max_arity, memo):
+def gen(level, n, max_level, max_arity, memo, fam="base"):
     """All templates with exactly n nodes whose root is at quasiquote `level`."""
-    k = (level, n)
+    k = (level, n, fam)
     if k in memo:
         return memo[k]
+    F = FAMILIES[fam]
+    kinds = KINDS if F["fstr"] else KINDS[:5]
     out = []
     if n == 1:
-        out.extend(ATOMS)
-        out.append(FSTR_ATOM)
+        out.extend(F["atoms"])
+        if F["fstr"]:
+            out.append(FSTR_ATOM)
         if level == 0:
-            out.append(["HOLE", "unquote"])
-            out.append(["HOLE", "unquote-splice"])
-        for kind in KINDS:
+            for op in F["hole_ops"]:
+                out.append(["HOLE", op])
+        for kind in kinds:
             out.append(_seq(kind, []))
     else:
         # unary wrappers
         if level >= 1:
-            for op in ("unquote", "unquote-splice"):
-                for t in gen(level - 1, n - 1, max_level, max_arity, memo):
+            for op in F["hole_ops"]:
+                for t in gen(level - 1, n - 1, max_level, max_arity, memo, fam):
                     if t[0] != "FComponent":
                         out.append(["Expression", [P.Sym(op), t]])
         if level + 1 <= max_level:
-            for t in gen(level + 1, n - 1, max_level, max_arity, memo):
+            for t in gen(level + 1, n - 1, max_level, max_arity, memo, fam):
                 if t[0] != "FComponent":
                     out.append(["Expression", [P.Sym("quasiquote"), t]])
         # sequences
-        for kind in KINDS:
+        for kind in kinds:
             for ar in range(1, min(max_arity, n - 1) + 1):
                 for split in _compositions(n - 1, ar):
                     pools = []
                     for idx, sz in enumerate(split):
-                        pools.append([t for t in gen(level, sz, max_level, max_arity, memo) if _ok_child(kind, idx, t)])
+                        pools.append([t for t in gen(level, sz, max_level, max_arity, memo, fam) if _ok_child(kind, idx, t)])
                     for kids in itertools.product(*pools):
                         out.append(_seq(kind, list(kids)))
     memo[k] = out
@@ -265,8 +288,8 @@ def number_holes(t, counter=None):
 
 
 SPACE = {
-    "quick": dict(n=4, max_level=2, max_arity=3, max_holes=2, pool2="small"),
-    "thorough": dict(n=5, max_level=2, max_arity=3, max_holes=3, pool2="full"),
+    "quick": dict(n=4, max_level=2, max_arity=3, max_holes=2, pool2="small", n_opnames=3),
+    "thorough": dict(n=5, max_level=2, max_arity=3, max_holes=3, pool2="full", n_opnames=4),
 }
 _TCACHE = {}
 
@@ -285,6 +308,14 @@ def templates(tier):
                 h = holes(t)
                 if h <= b["max_holes"]:
                     out.append((h, number_holes(t)))
+        base = {repr(t) for _, t in out}
+        for n in range(1, b["n_opnames"] + 1):
+            for t in gen(0, n, b["max_level"], b["max_arity"], memo, "opnames"):
+                h = holes(t)
+                if h <= b["max_holes"]:
+                    nt = number_holes(t)
+                    if repr(nt) not in base:
+                        out.append((h, nt))
         _TCACHE[tier] = out
     return _TCACHE[tier]
 
